@@ -40,6 +40,7 @@ func R23(p *core.Prog) *core.Result {
 		return r
 	}
 	capData(p, r)
+	nilWrites(p, r)
 	ctxNamed := p.Type("gotype", "unfoldCtx")
 	if ctxNamed == nil {
 		r.Undecided("", "gotype.unfoldCtx", "type not found")
@@ -959,4 +960,117 @@ func completionAgree(p *core.Prog, r *core.Result, sp *ssa.Package, ctxNamed *ty
 	r.Floor("state_initialisers", inits, 20)
 	r.Stats["unfolder_state_types"] = types_
 	r.Floor("unfolder_states_with_value_events", checked, 40)
+}
+
+
+// nilWrites (NIL-WRITES): a reflective unfolder state (one whose value events
+// work on the target through package reflect) that accepts null writes the
+// target - the zero value, an entry - with a reflect setter, itself or through
+// a method of the same type. A null that only pops the state leaves whatever
+// the target held before: a non-nil pointer from the previous document, say.
+func nilWrites(p *core.Prog, r *core.Result) {
+	sp := p.SPkgs["gotype"]
+	isSetter := func(sc *ssa.Function) bool {
+		return sc != nil && funcPkgPath(sc) == "reflect" && (strings.HasPrefix(sc.Name(), "Set") || sc.Name() == "Append")
+	}
+	var usesReflectD func(f *ssa.Function, depth int) bool
+	usesReflectD = func(f *ssa.Function, depth int) bool {
+		if f == nil || f.Blocks == nil || depth > 2 {
+			return false
+		}
+		for _, b := range f.Blocks {
+			for _, in := range b.Instrs {
+				if c, ok := in.(ssa.CallInstruction); ok {
+					sc := c.Common().StaticCallee()
+					if sc != nil && funcPkgPath(sc) == "reflect" {
+						return true
+					}
+					if sc != nil && sc.Signature.Recv() != nil && f.Signature.Recv() != nil && namedOf(sc.Signature.Recv().Type()) == namedOf(f.Signature.Recv().Type()) && usesReflectD(sc, depth+1) {
+						return true
+					}
+				}
+			}
+		}
+		return false
+	}
+	usesReflect := func(f *ssa.Function) bool { return usesReflectD(f, 0) }
+	var writes func(f *ssa.Function, depth int) bool
+	writes = func(f *ssa.Function, depth int) bool {
+		if f == nil || f.Blocks == nil || depth > 2 {
+			return false
+		}
+		for _, b := range f.Blocks {
+			for _, in := range b.Instrs {
+				c, ok := in.(ssa.CallInstruction)
+				if !ok {
+					continue
+				}
+				sc := c.Common().StaticCallee()
+				if isSetter(sc) {
+					return true
+				}
+				if sc != nil && sc.Signature.Recv() != nil && f.Signature.Recv() != nil && namedOf(sc.Signature.Recv().Type()) == namedOf(f.Signature.Recv().Type()) && writes(sc, depth+1) {
+					return true
+				}
+			}
+		}
+		return false
+	}
+	n := 0
+	var names []string
+	for name, m := range sp.Members {
+		if _, ok := m.(*ssa.Type); ok {
+			names = append(names, name)
+		}
+	}
+	sort.Strings(names)
+	for _, tn := range names {
+		T := sp.Type(tn).Type()
+		mset := p.SSA.MethodSets.MethodSet(types.NewPointer(T))
+		sel := mset.Lookup(sp.Pkg, "OnNil")
+		if sel == nil {
+			continue
+		}
+		onNil := p.SSA.MethodValue(sel)
+		if onNil == nil || onNil.Blocks == nil || onNil.Synthetic != "" || namedOf(onNil.Signature.Recv().Type()) == nil || namedOf(onNil.Signature.Recv().Type()).Obj().Name() != tn {
+			continue
+		}
+		// a reflective state: OnNil itself or its scalar siblings call into reflect
+		reflective := usesReflect(onNil)
+		for _, ev := range []string{"OnBool", "OnInt", "OnString"} {
+			if s2 := mset.Lookup(sp.Pkg, ev); s2 != nil {
+				if f2 := p.SSA.MethodValue(s2); f2 != nil && f2.Blocks != nil && f2.Synthetic == "" && usesReflect(f2) {
+					reflective = true
+				}
+			}
+		}
+		if !reflective || alwaysErrors(onNil, map[*ssa.Function]bool{}) {
+			continue
+		}
+		// a state that hands the null on (to the user's state, to a child) is not the one that writes
+		delegates := false
+		for _, b := range onNil.Blocks {
+			for _, in := range b.Instrs {
+				if c, ok := in.(ssa.CallInstruction); ok {
+					if c.Common().IsInvoke() && c.Common().Method.Name() == "OnNil" {
+						delegates = true
+					}
+					if sc := c.Common().StaticCallee(); sc != nil && sc.Name() == "OnNil" && sc != onNil {
+						delegates = true
+					}
+				}
+			}
+		}
+		if delegates {
+			continue
+		}
+		n++
+		fkey := core.FuncKey(onNil)
+		if writes(onNil, 0) {
+			r.Ok(".NIL-WRITES", p.Pos(onNil.Pos()), fkey+": null is written to the target through a reflect setter")
+		} else {
+			r.Fail(".NIL-WRITES", fkey, p.Pos(onNil.Pos()), fkey+" accepts null without writing the target (no reflect setter is reached): the target keeps what it held before - a non-nil pointer filled by the previous document stays, although the stream says null", "")
+		}
+	}
+	r.Floor("reflective_null_handlers", n, 2)
 }
